@@ -2323,6 +2323,16 @@ func (m *Matcher) evalCond(e *env, fr *frame, cond ast.Expr, writer bool) (tri, 
 				// asserting an interface value to an interface it statically implements succeeds iff non-nil
 				return m.evalCmp(e, fr, x, token.NEQ, &ast.Ident{Name: "nil"}, writer, nil)
 			}
+			// a boolean local holding a hoisted test (extended := marker > 8) stands for that test
+			if isLocalVar(obj) {
+				if b, ok := obj.Type().Underlying().(*types.Basic); ok && b.Info()&types.IsBoolean != 0 {
+					if d := fr.ctx.singleDef(obj); d != nil {
+						if _, isCall := ast.Unparen(d).(*ast.CallExpr); !isCall {
+							return m.evalCond(e, fr, d, writer)
+						}
+					}
+				}
+			}
 		}
 	}
 	return m.evalAtom(e, fr, cond, writer)
